@@ -328,7 +328,11 @@ def unit_nested_rt_keep_in_datafn():
     """a zero-argument data function without inputs of its own keeps another function with a run-time argument"""
     g = {"name": "G", "module": "main", "params": [["x", None]], "body": []}
     core = [{"k": "const", "expr": "5"}, {"k": "keep", "path": "/u/g", "fn": "G", "args": [{"local": 0}]}]
-    return _scaffold(core, extra_funcs=[g], eps=[{"id": "tag:S", "kind": "body_tag_sibling", "n": 2}], sid="U/nested_rt_keep_in_datafn", key="nested_rt_keep_in_datafn")
+    sp = _scaffold(core, extra_funcs=[g], eps=[{"id": "tag:S", "kind": "body_tag_sibling", "n": 2}], sid="U/nested_rt_keep_in_datafn", key="nested_rt_keep_in_datafn")
+    for f in sp["funcs"]:
+        if f["name"] in ("K", "Kd"):
+            f["nolog"] = True   # no input of its own at all: not even the name of a non-accepted module
+    return sp
 
 
 def unit_structural(kind):
@@ -371,7 +375,21 @@ def unit_programs(level="quick"):
     out += [unit_shadow(h) for h in SHADOWS]
     out += [unit_class_attr(), unit_local_import(), unit_inherited()]
     out += [unit_local_module_import(), unit_result_crlf(), unit_nested_rt_keep_in_datafn()]
+    # the same shapes with functions that mention no name of a non-accepted module at all (every generated function logs through
+    # the non-accepted module pipelog, which gives each of them an external dependency: here the dependent ones have none)
+    base = unit_body_self() + [unit_body(p) for p in ("helper1", "helper2", "helper3", "method", "hof")] + [unit_var("int", "name", "helper2")]
+    out += [_nolog(sp) for sp in base]
     return out
+
+
+def _nolog(sp):
+    sp = copy.deepcopy(sp)
+    for f in sp["funcs"]:
+        if f["name"] not in ("S", "root", "rootd"):
+            f["nolog"] = True
+    sp["id"] += "/nolog"
+    sp["key"] += "|nolog"
+    return sp
 
 
 # ------------------------------------------------------------------ composites
